@@ -18,9 +18,59 @@ CLAIMED = {
         note="trusted: clang front end, tools/nifly-ast extractor, lib/paths.py canonicaliser (no aliasing between distinct canonical "
              "paths), std container value semantics. The consequence 'no stale index after edits' additionally needs the value-level "
              "index arithmetic of C06, which is not decided."),
+    "C03": dict(
+        cat="other", ref="DESIGN.md §5 C03",
+        technique="static analysis: interprocedural guard dominance (must-pass-through of the hasUnknown guard over the CHA call graph with per-call-site dataflow facts), who-may-write census",
+        text="Decides the structural clauses the behaviour depends on: on every call path from Load/Save (and from every public entry "
+             "point) to a NiHeader primitive that deletes, reorders or replaces blocks or clears the string table, some frame is "
+             "guarded by hasUnknown==false or by a version guard that is false in every version region where unknown blocks can "
+             "exist; hasUnknown is written only next to a NiUnknown construction, in CopyFrom and in Clear; NiUnknown transfers "
+             "exactly its buffer; the string table is append-only under hasUnknown. Primitives and paths are discovered from the "
+             "code, so a new unguarded path is found without listing it. Byte equality of the payload itself is not decided.",
+        note="assumes calls between a guard and a primitive do not change hasUnknown (backed by the who-may-write rule); CHA "
+             "over-approximates virtual dispatch; value-level corruption of payload bytes in place is out of reach"),
+    "C11": dict(
+        cat="proof", ref="DESIGN.md §5 C11",
+        technique="static analysis: ownership census over record layouts/types (no pointer-like members outside the re-linked caches), re-link dominance dataflow in CopyFrom, clone-wiring and mutable-static census",
+        text="Independence of a copied model is proved structurally: every field of every record reachable from a block class, "
+             "NifFile or NiHeader is scanned (obligations = fields); a field may be pointer-like only if it is one of the caches "
+             "assigned in SetGeomData overrides / SetBlockReference, and CopyFrom re-links exactly those on every path after "
+             "cloning; CopyFrom assigns every NifFile member; no block class has user-written copy operations; Clone_impl of every "
+             "registered class is the CRTP instantiation for that class; no mutable statics. Given C++ value semantics this "
+             "implies the copy shares no state with its source, for all 304 block types. Byte-equality of the copy's save is "
+             "inherited from clone wiring + C01 and not separately decided.",
+        note="trusted: clang front end and record layouts, extractor, value semantics of std containers (vector/string/array/set/"
+             "map deep-copy their elements)"),
+    "C15": dict(
+        cat="other", ref="DESIGN.md §5 C15",
+        technique="static analysis: forward nullness dataflow with interprocedural deref summaries, SCC-based recursion-gate analysis with visited-set facts, bounded graph-walk loops, range-guard dominance",
+        text="Necessary conditions for crash-freedom under corrupted references, checked at every site in scope (everything reachable "
+             "from Load, Save, CopyFrom and the const public queries): every dereference of a block-lookup result is dominated by a "
+             "non-null test (also through callees that dereference a parameter unchecked); every unsafe downcast is type-tested; "
+             "every recursive call edge passes a visited-set gate, a not-visited argument guard or a block-list-shrinking step; "
+             "pointer-chasing loops are bounded; header-table subscripts by reference-derived indices are range-guarded.",
+        note="heap safety of arbitrary index arithmetic elsewhere and absence of UB in general are not decided; payload-class "
+             "accessors (HasX()/XRef() pairs) are trusted to follow their own invariants"),
+    "C16": dict(
+        cat="other", ref="DESIGN.md §5 C16",
+        technique="static analysis: divisor-guard dominance dataflow over every integer division/modulo in the library",
+        text="Decides the clause 'no code divides by a field a truncated file leaves at zero': every integer / and % whose divisor is "
+             "not a non-zero constant must be dominated by a non-zero test of that divisor (all functions, all template "
+             "instantiations). This is the site class where truncation crashes were actually found (SIGFPE in NiSkinPartition, "
+             "fixed). Allocation sizes and value-level PrepareData logic are not decided.",
+        note="guards are recognised as dataflow facts (if/early return/&&/?:); arithmetic reasoning about non-zero-ness beyond a "
+             "direct test is not attempted"),
 }
 
 NOT_APPLICABLE = {
+    "C13": "static analysis cannot decide it: every clause is equality/tolerance of runtime vertex, normal, colour and triangle arrays "
+           "across versions; the only structural candidate (size guards on setters) concerns inputs outside the property's quantifier",
+    "C17": "static analysis cannot decide it: segment/partition renumbering, stable sort and contiguous range tables are value-level "
+           "algorithm correctness over runtime arrays",
+    "C18": "static analysis cannot decide it: functional equivalence of index-remapping/strip templates with their mathematical "
+           "definition over all inputs; goto-analyzer cannot parse the C++ templates, and a C re-model would not inspect /repo's source",
+    "C20": "static analysis cannot decide it: floating-point transform identities and bounding-sphere containment within tolerance; "
+           "nothing in the shape of the code decides them",
 }
 
 PENDING_REASON = "check not built yet in this session (static rule designed in DESIGN.md §5, not yet armed); not claimed until it runs"
